@@ -450,6 +450,9 @@ class Exec(object):
                     v2 = VMap(v.t, v.kt, v.vt, v.keys)
                     v2.origin = key
                     v = v2
+                elif isinstance(v, VSet):
+                    v = VSet(v.t, v.n)
+                    v.origin = key
                 return [(path, v)]
             if isinstance(obj, VConc):
                 target = obj.obj
@@ -465,6 +468,8 @@ class Exec(object):
                             return [(path, self.lift_obj(getattr(target, name)))]
                         return self.raise_(path, AttributeError, name)
                     cls = None
+                    if name in ('__name__', '__qualname__', '__module__'):
+                        return [(path, self.lift_obj(getattr(target, name)))]
                     # class attribute read on the class itself
                     try:
                         raw = inspect.getattr_static(target, name)
@@ -483,6 +488,8 @@ class Exec(object):
                 cls = obj.cls
             if cls is None or not isinstance(cls, type):
                 return self.raise_(path, AttributeError, name)
+            if name == '__class__':
+                return [(path, VConc(cls))]
             try:
                 raw = inspect.getattr_static(cls, name)
             except AttributeError:
